@@ -165,6 +165,11 @@ def nesting_sigs(depths):
         yield 'a{y' * n + 'y' + '}' * n
         yield '(' * n + 'y'
         yield 'a' * n
+        # many container types SIDE BY SIDE at one level (splitting must stay linear in the signature, not re-split the rest per type)
+        k = max(2, min(n, 127))
+        yield 'ai' * k
+        yield 'a(y)' * (k // 2)
+        yield '(' + 'ay' * k + ')'
 
 
 def nested_array_data(n, le, leaf=b'\x07'):
